@@ -44,8 +44,10 @@ def gen_events(rng, n_lo=3, n_hi=8, with_disk=True) -> list:
             evs.append({"ev": "update", "seed": rng.getrandbits(24), "lr": rng.choice([0.05, 0.3])})
         elif r < 0.76 and with_disk:
             evs.append(gen_save_load(rng))
-        elif r < 0.88:
+        elif r < 0.84:
             evs.append({"ev": "jit_call"})
+        elif r < 0.90:
+            evs.append({"ev": "tweak_scalars"})
         else:
             evs.append({"ev": "transported_input", "kind": rng.choice(["jit", "tree", "reinsert"])})
     return evs
@@ -92,6 +94,11 @@ def gen_plan(rng, profile: dict, seed: int) -> dict:
         D = 2 if cls == "Climate1D" else rng.choice([2, 2, 3])
         cfg = {"cls": cls, "D": D, "sig": zoo.gen_sig(rng, D, 1), "spatial": [4] * D, "torus": True, "groups": 1, "c": rng.randint(1, 3), "past": rng.randint(1, 2)}
     evs = [{"ev": "update", "seed": rng.getrandbits(24), "lr": 0.3}]
+    if rng.random() < 0.6:
+        # move the non-array leaves too (python floats such as a norm's eps, the inference flag of wrappers): a
+        # checkpoint must carry them, the twin it is loaded into has the constructor defaults
+        evs.append({"ev": "tweak_scalars"})
+        evs.append({"ev": "inference", "value": True})
     for _ in range(rng.randint(1, 3)):
         evs.append(gen_save_load(rng))
         if rng.random() < 0.4:
@@ -130,7 +137,7 @@ def build_any(cfg: dict, key):
         return ml.VectorNeuronNonlinear(s, D, key=key)
     if cls == "GroupAverage":
         inner = models.ResNet(D, s, s, depth=2, num_blocks=1, equivariant=False, kernel_size=3, key=key)
-        return models.GroupAverage(inner, zoo.banks(D)["ops"][:4], always_average=True)
+        return models.GroupAverage(inner, zoo.banks(D)["ops"][:4], always_average=False)
     if cls == "ModelWrapper":
         cin = sum(c * D**k for k, _, c in cfg["sig"])
         return models.ModelWrapper(D, eqx.nn.Conv(D, cin, cin, 3, padding="SAME", key=key), s, True)
@@ -177,6 +184,13 @@ def perturb(model, seed: int, lr: float):
     st = opt.init(params)
     updates, st = opt.update(grads, st, params)
     return eqx.apply_updates(model, updates)
+
+
+def tweak_scalars(model):
+    """multiply every python-float leaf (e.g. GroupNorm.eps) by 100: the model stays callable, its output changes"""
+    leaves, treedef = jax.tree_util.tree_flatten(model)
+    new = [(l * 100.0) if (isinstance(l, float) and not isinstance(l, bool)) else l for l in leaves]
+    return jax.tree_util.tree_unflatten(treedef, new)
 
 
 def leaves_of(model) -> list:
@@ -282,6 +296,10 @@ def execute(plan: dict, ctx: dict) -> dict:
                 elif kind == "update":
                     model = perturb(model, ev["seed"], ev["lr"])
                     bump("updates")
+                elif kind == "tweak_scalars":
+                    n_float = sum(1 for l in jax.tree_util.tree_leaves(model) if isinstance(l, float) and not isinstance(l, bool))
+                    model = tweak_scalars(model)
+                    bump("scalar_leaves_tweaked", n_float)
                 elif kind == "save_load":
                     model = _save_load(plan, ev, model, x, world, viol, bump, site0, i)
                     evals += 1
@@ -303,7 +321,7 @@ def execute(plan: dict, ctx: dict) -> dict:
             except Exception as e:
                 viol("C20" if lifecycle else "C13", "raises", {"event": ev, "error": f"{type(e).__name__}: {str(e)[:300]}"}, f"{site0}/{kind}")
                 break
-            if lifecycle and kind in ("tree_map", "inference", "update", "save_load"):
+            if lifecycle and kind in ("tree_map", "inference", "update", "save_load", "tweak_scalars"):
                 check_conformance(model, x, kind)
             if len(violations) >= 3:
                 break
@@ -371,6 +389,9 @@ def _save_load(plan, ev, model, x, world: World, viol, bump, site0, idx):
 
         disk.write_faults = _CrashAt()
     saved_ok, crashed = False, False
+    full_stream = io.BytesIO()
+    eqx.tree_serialise_leaves(full_stream, model)  # what a complete save writes, byte for byte
+    full_bytes = full_stream.getvalue()
     hard_before = world.faults.get("disk_enospc", 0) + world.faults.get("disk_eio", 0)
     before = leaves_of(model)
     try:
@@ -403,6 +424,9 @@ def _save_load(plan, ev, model, x, world: World, viol, bump, site0, idx):
         bump("load_returned")
     except Exception as e:
         bump("load_raised")
+        c_ = disk.content(path) or b""
+        if crashed and len(c_) < len(full_bytes) and full_bytes.startswith(c_):
+            bump("strict_prefix_load_raised")
         fired_eio = world.faults.get("disk_read_eio", 0) > 0 and injected_read_eio
         if saved_ok and not crashed and not fired_eio:
             viol("C13", "load_raises", {"error": f"{type(e).__name__}: {str(e)[:300]}", "faults": _fault_tag(ev), "cls": cfg["cls"]}, f"{site0}/save_load/{_fault_tag(ev)}")
@@ -430,9 +454,16 @@ def _save_load(plan, ev, model, x, world: World, viol, bump, site0, idx):
         except Exception as e:
             viol("C13", "raises", {"error": f"{type(e).__name__}: {str(e)[:300]}"}, f"{site0}/save_load/call")
         return loaded
-    # after a crash or a failed save nothing is promised; count what happened
+    # after a crash or a failed save the statement promises nothing about durability; the one thing that is still
+    # decidable and sound: a file that is a *strict prefix* of the complete stream (interrupted or truncated write)
+    # cannot be deserialised by the unchanged code (the leaf stream ends early), so a load that returns a model
+    # different from the saved one from such a file has silently handed back garbage.
+    content = disk.content(path) or b""
     if not same:
-        bump("torn_load_silent")
+        if len(content) < len(full_bytes) and full_bytes.startswith(content):
+            viol("C13", "truncated_checkpoint_loads_silently", {"file_bytes": len(content), "complete_bytes": len(full_bytes), "faults": _fault_tag(ev), "cls": cfg["cls"]}, f"{site0}/save_load/strict_prefix")
+        else:
+            bump("torn_load_silent")
         return model
     bump("load_after_fault_equal")
     return loaded
